@@ -585,6 +585,12 @@ func smokeWorker(inputPath string) {
 					if fr != nil {
 						fr.stop()
 					}
+					if ta != "" {
+						op("tcp." + proto + ".front-not-started")
+					}
+					if ua != "" {
+						op("udp." + proto + ".front-not-started")
+					}
 					continue
 				}
 				fronts = append(fronts, fr)
@@ -610,7 +616,9 @@ func smokeWorker(inputPath string) {
 				before := echo.udpSeen.Load()
 				r := udpOp(uc, proto, a, target, waitFor(udpRoutable))
 				op("udp." + proto + "." + r)
-				if proto == "direct" && intruder != nil && echo.udpSeen.Load() > before {
+				if proto == "direct" && (intruder == nil || echo.udpSeen.Load() <= before || echo.lastSrc.Load() == nil) {
+					op("udp.direct.intruder-skipped") // the tunnel never reached the echo peer: nobody to impersonate
+				} else if proto == "direct" {
 					// one reply from a source that is not the tunnel's target
 					if src := echo.lastSrc.Load(); src != nil {
 						intruder.WriteToUDPAddrPort([]byte("C18 intruder"), *src)
